@@ -35,10 +35,12 @@ Print Assumptions save_refusal.
 (* The hypothesis `wfb` is reachable: every network produced by the builder of coq/C12/Builder.v (the
    constructors / mutators the flat generator of the harness calls, each with the checks of the Go
    mutator; multiplexers not covered; see the header of Builder.v for the usage discipline) is
-   well-formed, hence round-trips whenever its values are inside the ranges of the format.  The
+   well-formed, hence round-trips whenever its values are inside the ranges of the format.  `ids_fresh e ops`: the
+   entity ids the environment supplies to the constructor calls are pairwise distinct (Go draws them from nanoid); a
+   hypothesis, not a check of `build`.  The
    harness logs the calls of every flat network it builds, `build` is replayed on them and compared
    with the network observed through the getters (props/C12/NOTES.md). *)
-Theorem built_wf : forall e ops n, build e ops = Some n -> wfb n = true.
+Theorem built_wf : forall e ops n, build e ops = Some n -> ids_fresh e ops -> wfb n = true.
 Proof. exact built_wf_lemma. Qed.
 Print Assumptions built_wf.
 
